@@ -263,6 +263,8 @@ def correspondence(ctx):
 
 
 def search(ctx, violations):
+    from checks import c10
+    c10.annotate_skeleton_failure(ctx, violations, "SkeletonReader", "reader_assumptions", "Model/Lifecycle.v / GroupReader.v / ReaderModel.v", "reader.go")
     found = W.search_for(PROP, ctx, violations)
     if found:
         return found
